@@ -422,3 +422,28 @@ def run_playback(scratch, h, tests_src, logdir):
     if not oks:
         return False, "", tests_src, "playback did not run: " + _tail(plog, 15)
     return False, "", tests_src, f"{len(names)} playback test(s) passed natively (dev profile)"
+
+
+def native_test(scratch, crate, rel_file, test_name, code, logdir):
+    """mir2smt replay: append a plain #[cfg(test)] module with `code` to `rel_file` of the scratch
+    copy and run it natively (dev profile, real functions).  Returns (failed: bool|None, detail)."""
+    os.makedirs(logdir, exist_ok=True)
+    path = os.path.join(scratch.src, rel_file)
+    with open(path, "a") as fh:
+        fh.write("\n#[cfg(test)]\nmod kv_native_replay {\n    #![allow(unused_imports)]\n    use super::*;\n" + code + "\n}\n")
+    log = os.path.join(logdir, f"native-{test_name}.log")
+    env = dict(ENV)
+    env.pop("RUSTFLAGS", None)
+    with open(log, "w") as fh:
+        try:
+            subprocess.run(["cargo", "test", "--offline", "-p", crate, "--lib", "--target-dir", os.path.join(scratch.dir, "target-native"), test_name],
+                           cwd=scratch.src, env=env, stdout=fh, stderr=subprocess.STDOUT, timeout=1800)
+        except subprocess.TimeoutExpired:
+            return None, "native test timed out"
+    txt = open(log, errors="replace").read()
+    if re.search(r"test \S*" + re.escape(test_name) + r" \.\.\. FAILED", txt):
+        m = re.search(r"panicked at ([^\n]*)\n([^\n]*)", txt)
+        return True, (m.group(1) + " " + m.group(2)) if m else "test failed"
+    if re.search(r"test \S*" + re.escape(test_name) + r" \.\.\. ok", txt):
+        return False, "native test passed"
+    return None, "native test did not run: " + _tail(log, 12)
